@@ -12,7 +12,8 @@ from vlib.common import *
 from checks.C15 import _absorb
 
 NEG_T = [("Guard_compressed", "BodyIntact"), ("NonAtomicFence", "BodyIntact"), ("No406Fallback", "GiveUpRule"),
-         ("FallbackKeepsIndex", "Fallback406"), ("RetryPermanent", "FailoverInOrder"), ("CompressUnasked", "ResponseEncodingOffered")]
+         ("FallbackKeepsIndex", "Fallback406"), ("RetryPermanent", "FailoverInOrder"), ("CompressUnasked", "ResponseEncodingOffered"),
+         ("SwallowSourceError", "BodyIntact")]
 NEG_C = ["CompleteGT", "KeepCount", "FlushDrops"]
 
 
@@ -43,7 +44,7 @@ def run(t):
     deep = t != "quick"
     r = run_tlc("Transport_MC", "Transport_MC.cfg", timeout=900, want_beh=False)
     tlc_must_pass(r, "Transport_MC")
-    run.add_tlc(r, "Transport mc (<=3 servers, retries<=4, any subset down, 4 advertised encodings, 6 response classes, <=5 scripted failures; liveness Terminates)")
+    run.add_tlc(r, "Transport mc (<=3 servers, retries<=4, any subset down, 4 advertised encodings, 6 response classes + a source read fault, <=5 scripted failures; liveness Terminates)")
     r = run_tlc("ChunkHash_MC", "ChunkHash_MC.cfg", timeout=900, want_beh=False)
     tlc_must_pass(r, "ChunkHash_MC")
     run.add_tlc(r, "ChunkHash mc (block 4 units, writes of 1..10 units, 14 units, 2 sections)")
